@@ -358,6 +358,20 @@ def single_pred_forward(chk, F, key, body, sp, pred, operand="a"):
         r = unref(paths[0][1])
         if not isinstance(r, BoolV) or r.b != ref(v):
             bad.append("at re = %s returns %r, the predicate of the real part is %s" % (v, r, ref(v)))
+    if pred in ("is_positive", "is_negative", "is_sign_positive", "is_sign_negative"):
+        # signed zeros: these predicates of a float are SIGN-BIT tests (num_traits / std): is_negative(-0.0) holds, is_positive(+0.0) holds;
+        # an ordering comparison of the real part with zero is a different predicate exactly there
+        from .c11 import signed_zero_oracle
+        for tag, negative in (("+0.0", False), ("-0.0", True)):
+            env = {xa: Fr(0), ("c", "EPS"): EPS_VALUE}
+            paths = run_paths(F, body, lambda: [sp.operand(operand)], oracle=signed_zero_oracle(env, negative))
+            want = negative if pred in ("is_negative", "is_sign_negative") else not negative
+            if len(paths) != 1:
+                bad.append("at re = %s the result is not determined by the real part (%d paths)" % (tag, len(paths)))
+                continue
+            r = unref(paths[0][1])
+            if not isinstance(r, BoolV) or r.b != want:
+                bad.append("at re = %s returns %r, the predicate of the real part (a sign-bit test) is %s" % (tag, r, want))
     chk.ob(key, not bad, "%s is decided by the real part only and equals %s of the real part" % (pred, pred), body_loc(F, body),
            found=sorted(set(bad))[:4] or "agrees on all sign cases", required="%s(%s.re)" % (pred, operand), nontrivial=False)
     chk.count("predicate items")
